@@ -552,6 +552,7 @@ func checkBulkOps(p *Program, r *Report, prop string) {
 		}
 	}
 	r.Floor("R02.2", "Contiguous implementations", nC, 9)
+	checkContiguousIgnoresUnitAxes(p, r)
 
 	// ---- R02.2b: the fields the predicate reads are maintained with consistent units
 	{
@@ -1190,6 +1191,9 @@ func checkEnumerationLoops(p *Program, r *Report, cOnly bool) {
 			}
 			l := innermostLoop(loops, c.Block())
 			if l == nil {
+				// the step of an index walker (`func (w *walker) next() { Increment(w.loc, w.shape); w.pos++ }`): the
+				// enumeration is judged on the walker type and at every loop that is driven by it
+				n += checkIndexWalker(p, r, fn, c)
 				continue
 			}
 			n++
@@ -1845,4 +1849,335 @@ func checkFlatPairing(p *Program, r *Report, cOnly bool) {
 		}
 	}
 	r.Floor("R02.11", "flat pairings of two arrays", n, 8)
+}
+
+// checkContiguousIgnoresUnitAxes (R02.12): an axis of extent one has no neighbours, so neither its step nor its
+// stride can separate elements: in Contiguous() every branch that reads Step[i] or Offset[i] is taken only for
+// axes with Dims[i] > 1. A stride test applied to unit axes as well makes the predicate reject views whose
+// elements are adjacent — ReshapeFast then fails on them and Unroll/Reshape copy instead of aliasing.
+func checkContiguousIgnoresUnitAxes(p *Program, r *Report) {
+	r.Rule("R02.12", "the contiguity predicate ignores axes of extent one: in Contiguous() every conditional that reads Step[i] or Offset[i] executes only under Dims[i] > 1 for the same i (an axis with a single position cannot separate elements, whatever its step) — otherwise contiguous views are reported non-contiguous: ReshapeFast rejects them and Unroll/Reshape return copies where the property demands an alias")
+	n := 0
+	for _, fn := range p.PkgFuncs("data") {
+		if fn.Name() != "Contiguous" || fn.Signature.Recv() == nil || !isCommonStruct(fn.Signature.Recv().Type()) {
+			continue
+		}
+		// element loads of a field: field name and index value
+		elemOf := func(v ssa.Value) (string, ssa.Value) {
+			ld, ok := v.(*ssa.UnOp)
+			if !ok || ld.Op != token.MUL {
+				return "", nil
+			}
+			ia, ok := ld.X.(*ssa.IndexAddr)
+			if !ok {
+				return "", nil
+			}
+			for _, o := range origins(ia.X) {
+				if o == nil {
+					continue
+				}
+				if nm, _, ok := loadedField(o); ok {
+					return nm, ia.Index
+				}
+			}
+			return "", nil
+		}
+		longAxis := func(g Guard) ssa.Value {
+			bo, ok := g.Cond.(*ssa.BinOp)
+			if !ok {
+				return nil
+			}
+			x, y, op := bo.X, bo.Y, bo.Op
+			if _, isC := constInt(x); isC {
+				x, y = y, x
+				switch op {
+				case token.LSS:
+					op = token.GTR
+				case token.LEQ:
+					op = token.GEQ
+				case token.GTR:
+					op = token.LSS
+				case token.GEQ:
+					op = token.LEQ
+				}
+			}
+			c, isC := constInt(y)
+			nm, idx := elemOf(x)
+			if !isC || nm != "Dims" {
+				return nil
+			}
+			holds := false
+			switch {
+			case op == token.GTR && c == 1, op == token.GEQ && c == 2, op == token.NEQ && c == 1:
+				holds = g.Val
+			case op == token.LEQ && c == 1, op == token.LSS && c == 2, op == token.EQL && c == 1:
+				holds = !g.Val
+			}
+			if !holds {
+				return nil
+			}
+			return idx
+		}
+		k := 0
+		eachInstr(fn, func(b *ssa.BasicBlock, _ int, ins ssa.Instruction) {
+			iff, ok := ins.(*ssa.If)
+			if !ok {
+				return
+			}
+			// stride fields read by this condition
+			var reads []struct {
+				field string
+				idx   ssa.Value
+			}
+			dependsOn(iff.Cond, func(x ssa.Value) bool {
+				if nm, idx := elemOf(x); nm == "Step" || nm == "Offset" || nm == "OffsetStep" {
+					reads = append(reads, struct {
+						field string
+						idx   ssa.Value
+					}{nm, idx})
+				}
+				return false
+			}, map[ssa.Value]bool{})
+			for _, rd := range reads {
+				k++
+				n++
+				key := fmt.Sprintf("%s:unit-axis#%d", FuncKey(fn), k)
+				guarded := false
+				for _, g := range guardsAt(b) {
+					if idx := longAxis(g); idx != nil && (idx == rd.idx || sameValue(idx, rd.idx)) {
+						guarded = true
+					}
+				}
+				if guarded {
+					r.OK("R02.12", fmt.Sprintf("%s: the test of %s[i] applies only to axes with Dims[i] > 1", FuncKey(fn), rd.field))
+				} else {
+					r.Fail("R02.12", key, p.Pos(iff.Cond.Pos()), fmt.Sprintf("Contiguous() tests %s[i] for axes of extent one as well: a view stepped along an axis with a single position has adjacent elements but is reported non-contiguous, so ReshapeFast fails on it and Unroll/Reshape return a copy instead of an alias of the storage", rd.field))
+				}
+			}
+		})
+	}
+	r.Floor("R02.12", "stride tests in Contiguous implementations", n, 9)
+}
+
+// checkIndexWalker: `step` is a method that advances an index kept in its receiver with Increment(w.loc, w.shape)
+// outside any loop. The enumeration is complete if (a) the step also advances a position counter field by one, on
+// every path; (b) a predicate method of the type returns counter < size; (c) every construction of the type sets
+// counter = 0, size = Product(shape) of the shape it stores, and the index to a zero vector; (d) every loop whose
+// condition is the predicate calls the step on every iteration, on the same walker. Returns the obligations made.
+func checkIndexWalker(p *Program, r *Report, step *ssa.Function, inc ssa.CallInstruction) int {
+	key := FuncKey(step)
+	if step.Signature.Recv() == nil || len(step.Params) == 0 {
+		r.Fail("R02.7", key+":walker", p.Pos(inc.Pos()), "row-major enumeration is incomplete: Increment is called outside any element loop, in a function that is not a method of an index walker")
+		return 1
+	}
+	recv := step.Params[0]
+	fieldOfRecv := func(v ssa.Value) int {
+		for _, o := range origins(v) {
+			if ld, ok := o.(*ssa.UnOp); ok && ld.Op == token.MUL {
+				if fa, ok := ld.X.(*ssa.FieldAddr); ok && origin1(fa.X) == ssa.Value(recv) {
+					return fa.Field
+				}
+			}
+		}
+		return -1
+	}
+	locF, shapeF := fieldOfRecv(inc.Common().Args[0]), fieldOfRecv(inc.Common().Args[1])
+	if locF < 0 || shapeF < 0 {
+		r.Fail("R02.7", key+":walker", p.Pos(inc.Pos()), "row-major enumeration is incomplete: Increment outside a loop does not advance an index and shape kept in the method's receiver")
+		return 1
+	}
+	n := 0
+	rets := returnsOf(step)
+	domAll := func(b *ssa.BasicBlock) bool {
+		for _, ret := range rets {
+			if !b.Dominates(ret.Block()) {
+				return false
+			}
+		}
+		return true
+	}
+	// (a) counter advanced by one on every path
+	posF := -1
+	eachInstr(step, func(b *ssa.BasicBlock, _ int, ins ssa.Instruction) {
+		st, ok := ins.(*ssa.Store)
+		if !ok {
+			return
+		}
+		fa, ok := st.Addr.(*ssa.FieldAddr)
+		if !ok || origin1(fa.X) != ssa.Value(recv) {
+			return
+		}
+		add, ok := st.Val.(*ssa.BinOp)
+		if !ok || add.Op != token.ADD {
+			return
+		}
+		if c, isC := constInt(add.Y); !isC || c != 1 || fieldOfRecv(add.X) != fa.Field {
+			return
+		}
+		if domAll(b) {
+			posF = fa.Field
+		}
+	})
+	n++
+	if posF < 0 || !domAll(inc.Block()) {
+		r.Fail("R02.7", key+":walker-step", p.Pos(inc.Pos()), "row-major enumeration is incomplete: the walker's step does not, on every path, both Increment the index and advance its position counter by one (some element of the view is never visited or visited twice)")
+		return n
+	}
+	r.OK("R02.7", fmt.Sprintf("%s: the walker's step increments the index and advances the position by one on every path", key))
+	// (b) the predicate
+	wtype := recv.Type()
+	var more *ssa.Function
+	sizeF := -1
+	for _, fn := range dataFuncs(p) {
+		if fn.Signature.Recv() == nil || len(fn.Params) == 0 || !types.Identical(fn.Params[0].Type(), wtype) || fn == step {
+			continue
+		}
+		rs := returnsOf(fn)
+		if len(rs) != 1 || len(rs[0].Results) != 1 {
+			continue
+		}
+		bo, ok := rs[0].Results[0].(*ssa.BinOp)
+		if !ok || bo.Op != token.LSS {
+			continue
+		}
+		fieldIn := func(v ssa.Value) int {
+			for _, o := range origins(v) {
+				if ld, ok := o.(*ssa.UnOp); ok && ld.Op == token.MUL {
+					if fa, ok := ld.X.(*ssa.FieldAddr); ok && origin1(fa.X) == ssa.Value(fn.Params[0]) {
+						return fa.Field
+					}
+				}
+			}
+			return -1
+		}
+		if fieldIn(bo.X) == posF && fieldIn(bo.Y) >= 0 {
+			more, sizeF = fn, fieldIn(bo.Y)
+		}
+	}
+	n++
+	if more == nil {
+		r.Fail("R02.7", key+":walker-predicate", p.Pos(step.Pos()), "row-major enumeration is incomplete: no method of the walker compares its position counter with its size (position < size)")
+		return n
+	}
+	r.OK("R02.7", fmt.Sprintf("%s: %s() is position < size", key, more.Name()))
+	// (c) constructions
+	elemT := wtype
+	if pt, ok := wtype.Underlying().(*types.Pointer); ok {
+		elemT = pt.Elem()
+	}
+	nCtor := 0
+	for _, fn := range dataFuncs(p) {
+		eachInstr(fn, func(_ *ssa.BasicBlock, _ int, ins ssa.Instruction) {
+			a, ok := ins.(*ssa.Alloc)
+			if !ok || !types.Identical(a.Type().Underlying().(*types.Pointer).Elem(), elemT) {
+				return
+			}
+			stored := map[int][]ssa.Value{}
+			for _, ref := range refs(a) {
+				if fa, ok := ref.(*ssa.FieldAddr); ok {
+					for _, r2 := range refs(fa) {
+						if st, ok := r2.(*ssa.Store); ok && st.Addr == ssa.Value(fa) {
+							stored[fa.Field] = append(stored[fa.Field], st.Val)
+						}
+					}
+				}
+			}
+			if len(stored) == 0 {
+				return
+			}
+			nCtor++
+			n++
+			ckey := fmt.Sprintf("%s:walker-construction#%d", FuncKey(fn), nCtor)
+			bad := ""
+			if vs := stored[posF]; len(vs) > 0 {
+				for _, v := range vs {
+					if c, isC := constInt(v); !isC || c != 0 {
+						bad = "the position counter does not start at 0"
+					}
+				}
+			}
+			if bad == "" {
+				okSize := len(stored[sizeF]) > 0
+				for _, v := range stored[sizeF] {
+					good := false
+					for _, o := range origins(v) {
+						if pc, ok := o.(*ssa.Call); ok && callName(pc.Common()) == "Product" {
+							for _, sh := range stored[shapeF] {
+								if sameValue(pc.Common().Args[0], sh) {
+									good = true
+								}
+							}
+						}
+					}
+					if !good {
+						okSize = false
+					}
+				}
+				if !okSize {
+					bad = "the size is not Product(shape) of the shape the index is incremented over"
+				}
+			}
+			if bad == "" {
+				if len(stored[locF]) == 0 {
+					bad = "the index vector is not set"
+				}
+				for _, v := range stored[locF] {
+					if w := startsAtZeroIndex(p, v, 0); w != "" {
+						bad = w
+					}
+				}
+			}
+			if bad != "" {
+				r.Fail("R02.7", ckey, p.Pos(a.Pos()), "row-major enumeration is incomplete: "+bad+" (some element of the view is never visited or visited twice)")
+			} else {
+				r.OK("R02.7", fmt.Sprintf("%s: a walker starts at position 0 of Product(shape) positions, from the zero index", FuncKey(fn)))
+			}
+		})
+	}
+	if nCtor == 0 {
+		n++
+		r.Undecided("R02.7", key+":walker-construction", p.Pos(step.Pos()), "no construction of the walker type found")
+	}
+	// (d) loops driven by the walker
+	for _, fn := range dataFuncs(p) {
+		k := 0
+		for _, l := range findLoops(fn) {
+			iff, ok := l.Header.Instrs[len(l.Header.Instrs)-1].(*ssa.If)
+			if !ok {
+				continue
+			}
+			mc, ok := iff.Cond.(*ssa.Call)
+			if !ok || mc.Common().StaticCallee() != more || !l.Blocks[l.Header.Succs[0]] {
+				continue
+			}
+			k++
+			n++
+			lkey := fmt.Sprintf("%s:enumeration#w%d", FuncKey(fn), k)
+			wv := mc.Common().Args[0]
+			stepped := false
+			for b := range l.Blocks {
+				for _, ins := range b.Instrs {
+					c, ok := ins.(ssa.CallInstruction)
+					if !ok || c.Common().StaticCallee() != step || !sameValue(c.Common().Args[0], wv) {
+						continue
+					}
+					all := true
+					for _, pr := range l.Header.Preds {
+						if l.Blocks[pr] && !b.Dominates(pr) {
+							all = false
+						}
+					}
+					if all {
+						stepped = true
+					}
+				}
+			}
+			if !stepped {
+				r.Fail("R02.7", lkey, p.Pos(iff.Pos()), "row-major enumeration is incomplete: the walker's step is skipped on some iterations of the loop it drives (an element is visited twice, or the loop never ends)")
+			} else {
+				r.OK("R02.7", fmt.Sprintf("%s: visits Product(shape) elements from the zero index, one Increment per iteration", FuncKey(fn)))
+			}
+		}
+	}
+	return n
 }
